@@ -25,6 +25,7 @@ operation of the same kind.
 import DafRel.Lemmas.Build
 import DafRel.Bridge.Kernel
 import DafRel.Bridge.Ops
+import DafRel.Bridge.RelOps
 
 namespace DafRel.Props.C20
 
@@ -171,6 +172,10 @@ theorem bridge_begin_apply_methods (t : Rel) (pref : Option Engine) :
   ⟨fun tag e => Bridge.Calculation_begin_apply_eq tag e t pref, fun c => Bridge.Projection_begin_apply_eq c t pref,
    fun p => Bridge.Selection_begin_apply_eq p t pref, fun s e => Bridge.Slice_begin_apply_eq s e t pref,
    fun ts => Bridge.Sort_begin_apply_eq ts t pref⟩
+
+/-- `Chain._begin_apply`, as translated from the current source, is the model's `chainBeginApply`. -/
+theorem bridge_chain_begin_apply (l r : Rel) : Gen.Chain_begin_apply l r = chainBeginApply l r :=
+  Bridge.Chain_begin_apply_eq l r
 
 /-! ### Non-vacuity -/
 
